@@ -59,6 +59,11 @@ CLAIMED = {
    note="n <= 2, nctrl = 2, nfeat <= 3 (loops fully unrolled at these sizes); doubles as exact reals; spline-mapped evaluators' accuracy (numba interpolation) not applicable; OpenMP ignored here.",
    technique="symbolic execution of clang LLVM IR (own interpreter) through the repository's ctypes wrappers + automatic differentiation + z3; replay against the freshly compiled library",
    design="4/C11"),
+ "C02": dict(
+   text="Formula layer only (the rest of the property is numerical analysis and is not claimed): clang's LLVM IR of cider_coefs.c is executed symbolically - through the real wrapper _get_ovlp_fit_interpolation_coefficients and the FFI bridge for the Gaussian coefficient kernels - and z3 decides that for every J/K spec id the coefficients equal the Gaussian overlap of the kernel documented in docs/features/nldf.rst (via the Gaussian-moment lemma) and that dp = dp/da; likewise the version-k damping coefficients, the etb/zexp exponent-to-index maps, index clipping, cubic-spline coefficient evaluation (all table reads in bounds) and the smooth exponent saturation; the spec-id tables are total and distinct; the plan's version-i contraction equals the documented dot products with the documented nspin factors; the exponents equal the documented a_i[n].",
+   note="ngrids = nalpha = 2; Gaussian-moment lemma trusted; documented kernels transcribed; NOT claimed: version-i kernel integrals of convolutions.c, SDMX fit accuracy, fast-vs-slow path agreement, convergence under refinement.",
+   technique="symbolic execution of clang LLVM IR (own interpreter) via the repository's ctypes wrapper + z3; replay against the freshly compiled library",
+   design="4/C02"),
 }
 
 NOT_YET = {}
